@@ -34,8 +34,9 @@ func IntProps(propContainer map[string]object.PanObject) map[string]object.PanOb
 					res = -1
 				}
 
-				// NOTE: Int's descendants also call this
-				return object.NewInheritedInt(args[0].Proto(), res)
+				// NOTE: the result is always plain Int (-1, 0 or 1),
+				// otherwise Comparable props (`(self <=> other) == -1`) fail for Int's descendants
+				return object.NewPanInt(res)
 			},
 		),
 		// NOTE: this cannot be removed (Comparable uses Int#== internally)
